@@ -42,6 +42,8 @@ def belongs(pid, ev, verdict):
         return ev["k"] in ("invert", "invert2", "permute", "removeinc", "convert-invert")
     if pid == "C01" and ev["k"] == "convert":
         return True
+    if ev["k"] == "stale":
+        return pid in ("C01", "C03")
     if pid == "C03" and ev["k"] == "removeinc":
         return verdict == "removeinc-due"
     if ev["k"] != "calc":
@@ -79,7 +81,7 @@ def run(ctx, pid, note):
     ctx.run([vd, "calc-replay", "-in", docs, "-out", ctx.path("ev-model.ndjson"), "-seed", str(ctx.seed)], timeout=3000)
     n = 1500 if q else 15000
     ctx.run([vd, "calc-record", "-seed", str(ctx.seed), "-n", str(n), "-out", ctx.path("ev-rand.ndjson")], timeout=3000)
-    want = {"C01": ("calc", "convert"), "C03": ("calc", "removeinc"), "C17": ("invert", "invert2", "permute", "removeinc", "convert-invert")}[pid]
+    want = {"C01": ("calc", "convert", "stale"), "C03": ("calc", "removeinc", "stale"), "C17": ("invert", "invert2", "permute", "removeinc", "convert-invert")}[pid]
     lines = []
     for f in ("ev-rand.ndjson", "ev-model.ndjson"):
         for l in open(ctx.path(f)):
